@@ -130,6 +130,20 @@ func Harness_C07_reindex_converges() {
 		}
 		snaps = append(snaps, c07Snapshot(v))
 	}
+	// the tape is continued by a second instance whose index was rebuilt from it: such an index stores names relative
+	// to the root, and so do the records that instance writes — here the removal of an entry that is still there
+	continued := false
+	if vm.Bool("continuedBySecondInstance") {
+		for _, r := range v.Env.P.VerifRows() {
+			if !continued && r.Deleted != 1 && r.Linkname == "" && (r.Name == "/a" || r.Name == "/b") && r.Typeflag != int64(tar.TypeDir) {
+				v.Env.Tape.AddMember(&tar.Header{Typeflag: byte(r.Typeflag), Name: r.Name[1:], Mode: r.Mode, Format: tar.FormatPAX,
+					PAXRecords: map[string]string{"STFS.Version": "1", "STFS.Action": "DELETE"}}, 3, 0, nil)
+				v.Env.Tape.AddTrailer()
+				continued = true
+			}
+		}
+		vm.Assume(continued)
+	}
 	vm.Known("C07-replay-of-move-not-idempotent", hasMove)
 	vm.Known("C07-rename-while-a-link-exists", renameWithLink)
 	scratch, serr := c01Rebuild(v)
@@ -152,7 +166,9 @@ func Harness_C07_reindex_converges() {
 	// running the indexer twice changes nothing the second time
 	live := config.MetadataConfig{Metadata: v.Env.P}
 	for _, u := range []string{"/", "/a", "/b"} {
-		vm.Assert("C07.live_index_equals_scratch_rebuild", c01SameView(live, sm, u))
+		// (the first instance's own index has not seen what the second instance appended)
+		vm.Assert("C07.live_index_equals_scratch_rebuild", continued || c01SameView(live, sm, u))
 	}
+	vm.Cover("C07.history_continued_by_second_instance", continued)
 	vm.Cover("C07.history_with_move", hasMove)
 }
